@@ -36,6 +36,10 @@ def hw_target(x, n, k):
 def bad(s, t):
     s = np.asarray(s)
     return s.shape != np.asarray(t).shape or (not np.all(np.isfinite(s))) or (not np.allclose(s, t, atol=1e-8))
+def bad_rel(s, t, rtol, atol):
+    # entrywise |s - t| <= atol + rtol |t| (allclose with explicit tolerances)
+    s = np.asarray(s); t = np.asarray(t)
+    return s.shape != t.shape or (not np.all(np.isfinite(s))) or (not np.all(np.isfinite(t))) or (not np.allclose(s, t, rtol=rtol, atol=atol))
 """
 
 
@@ -158,6 +162,17 @@ def correspondence(ctx):
     for n in list(range(1, nmax + 1)) + [16, 20, 24] + ([32, 40] if ctx.thorough else []):
         for ws in (1, 0):
             cases.append((f"QFT {n} {ws}", real(lambda: queue_text(QFT(n, with_swaps=bool(ws)).queue)), f"QFT({n}, with_swaps={bool(ws)})"))
+    accs = ({"/GPU:0": 2}, {"/GPU:0": 1, "/GPU:1": 1}, {"/GPU:0": 2, "/GPU:1": 2}, {"/GPU:0": 4}, {"/GPU:0": 4, "/GPU:1": 4})
+    for n in list(range(1, nmax + 1)) + [16, 20]:
+        for acc in accs:
+            ng = int(math.log2(sum(acc.values())))
+            if n < ng + 2 or n // 2 + n % 2 < ng or (n > 8 and rng.random() < 0.5):
+                continue
+
+            def dtxt():
+                c = QFT(n, accelerators=dict(acc))
+                return queue_text(c.queue)
+            cases.append((f"QFTD {n}", real(dtxt), f"QFT({n}, accelerators={acc})"))
     cases.append(("QFT 5 1", real(lambda: queue_text(QFT(5).queue)), "QFT(5)"))  # default argument
     cases.append(("QFT 4 1", real(lambda: queue_text(QFT(4, True, None, density_matrix=True).queue)), "QFT(4, True, None, density_matrix=True)"))
     ctx.sample({"suite": "qft", "line": cases[4][0], "queue": cases[4][1]})
@@ -251,7 +266,7 @@ def correspondence(ctx):
 # direct search on the real code
 # ---------------------------------------------------------------------------
 
-def check_state(ctx, key, what, expr, target_expr, setup="", ob="C20_search"):
+def check_state(ctx, key, what, expr, target_expr, setup="", ob="C20_search", cmp="bad", also=()):
     """evaluate `expr` (a python expression in the PRE namespace after `setup`) and compare
     with `target_expr`; report a failing input with a self-contained replay."""
     env = dict(ns())
@@ -261,14 +276,14 @@ def check_state(ctx, key, what, expr, target_expr, setup="", ob="C20_search"):
         exec(setup, env)
         s = eval(expr, env)
         t = eval(target_expr, env)
-        failed = env["bad"](s, t)
+        failed = bool(eval(cmp, env)(s, t))
         observed = np.asarray(s).tolist() if np.asarray(s).size <= 64 else "…"
     except Exception as e:  # documented input raised
         failed, observed, t = True, f"raised {type(e).__name__}: {e}", None
     if failed:
-        py = PRE + setup + f"\ntry:\n    s = {expr}\nexcept Exception as e:\n    print('raised', repr(e)); sys.exit(1)\nt = {target_expr}\nprint(s); print(t)\nsys.exit(1 if bad(s, t) else 0)\n"
+        py = PRE + setup + f"\ntry:\n    s = {expr}\nexcept Exception as e:\n    print('raised', repr(e)); sys.exit(1)\nt = {target_expr}\nprint(s); print(t)\nsys.exit(1 if ({cmp})(s, t) else 0)\n"
         ctx.fail(key, what, py, expected=(np.asarray(t).tolist() if t is not None and np.asarray(t).size <= 64 else "see replay"),
-                 observed=str(observed)[:800], broken=[ob])
+                 observed=str(observed)[:800], broken=[ob, *also])
     return not failed
 
 
@@ -308,6 +323,20 @@ def search_qft(ctx):
         ok &= check_state(ctx, "QFT:execute_no_swaps", f"QFT({n}, with_swaps=False) executed on a random state", f"run(QFT({n}, with_swaps=False), v.copy())",
                           f"(np.fft.ifft(v)*np.sqrt(2**{n}))[rev({n})]", setup, "C20_search_qft")
     ok &= check_state(ctx, "QFT:density_matrix", "QFT(3, density_matrix=True) on |0><0|", "run(QFT(3, density_matrix=True))", "np.full((8, 8), 1/8)", "", "C20_search_qft")
+    # QFT(n, accelerators=...) = _DistributedQFT: same matrix, gates reordered so that no gate targets a global qubit
+    accs = ({"/GPU:0": 2}, {"/GPU:0": 1, "/GPU:1": 1}, {"/GPU:0": 2, "/GPU:1": 2}, {"/GPU:0": 4},
+            {"/GPU:0": 1, "/GPU:1": 1, "/GPU:2": 1, "/GPU:3": 1}, {"/GPU:0": 4, "/GPU:1": 4})
+    for n in range(2, (10 if ctx.thorough else 9)):
+        for acc in accs:
+            nglobal = int(math.log2(sum(acc.values())))
+            if n < nglobal + 2:
+                continue   # every gate of a distributed circuit (incl. two-qubit ones) needs local targets
+            if n // 2 + n % 2 < nglobal:
+                expect_raises(ctx, "QFT:distributed:errors", "NotImplementedError", f"QFT({n}, accelerators={acc})")
+                continue
+            ok &= check_state(ctx, "QFT:distributed", f"QFT({n}, accelerators={acc}).unitary() is not the DFT matrix",
+                              f"QFT({n}, accelerators={acc}).unitary(nb)", f"dft({n})", setup_dft, "C20_search_qft", also=("C20_corr_qft",))
+            ctx.stat(f"qft_distributed:nglobal{nglobal}")
     expect_raises(ctx, "QFT:accelerators_no_swaps", "NotImplementedError", "QFT(4, with_swaps=False, accelerators={'/GPU:0': 2})")
     ctx.ob("C20_search_qft", ok, "search", "" if ok else "QFT differs from the DFT on the real code")
 
@@ -398,6 +427,77 @@ def data_vectors(rng, d, complex_ok, count):
             kind += "+complex"
         out.append((kind, x))
     return out
+
+
+# magnitudes at which every encoder must behave the same (the encoders are scale invariant: the
+# target is x/|x|); 1e-12 .. 1e12 is far inside the range where float64 squares neither
+# underflow nor overflow (the clean tree is accurate to 1e-14 relative from 1e-150 to 1e150)
+SCALES = (1e-12, 1e-9, 1e-6, 1.0, 1e6, 1e12)
+# comparators: uniform scale: relative 1e-9 per entry; mixed magnitudes inside one vector, angles from
+# arctan2 (diagonal / Hamming-weight / hyperspherical): relative 1e-4 per entry (cos of an angle next to
+# pi/2 carries the relative error eps/|x_k|); angles from acos (tree / Hopf): acos(1 - eps) resolves only
+# sqrt(eps) ~ 1.5e-8, so entries much smaller than their sibling are lost on the unchanged tree (reported
+# as an observation): absolute 1e-7 there
+CMP_SCALE = "lambda s, t: bad_rel(s, t, 1e-9, 1e-13)"
+CMP_MIXED = "lambda s, t: bad_rel(s, t, 1e-4, 1e-13)"
+CMP_MIXED_ACOS = "lambda s, t: bad_rel(s, t, 0.0, 1e-7)"
+
+
+def scale_vectors(rng, d, complex_ok, mixed=True):
+    """one direction v (dense, both signs, in one variant with zeros) at every magnitude of SCALES, and the
+    same direction with entries of mixed magnitudes 1e-9 .. 1 inside the vector."""
+    out = []
+    for variant in ("dense", "zeros"):
+        v = np.array([rng.uniform(0.1, 1) * rng.choice([-1, 1]) for _ in range(d)])
+        if variant == "zeros":
+            for j in range(d):
+                if rng.random() < 0.35:
+                    v[j] = 0.0
+            if not v.any():
+                v[rng.randrange(d)] = 0.7
+        ph = None
+        if complex_ok and rng.random() < 0.5:
+            ph = np.array([np.exp(1j * rng.uniform(0, 6.28)) for _ in range(d)])
+        for sc in SCALES:
+            x = v * sc
+            out.append((f"scale:{sc:g}", (x.astype(complex) * ph) if ph is not None else x, CMP_SCALE))
+        if mixed and variant == "dense":
+            for tag, w in (("mixed:decades", np.array([10.0 ** (-rng.randint(0, 9)) for _ in range(d)])),
+                           ("mixed:two-levels", np.array([rng.choice([1.0, 1e-9]) for _ in range(d)]))):
+                x = v * w
+                out.append((tag, (x.astype(complex) * ph) if ph is not None else x, None))
+    return out
+
+
+def search_scales(ctx):
+    """scale invariance of every encoder: x and c*x prepare the same state x/|x|, for tiny and huge c and
+    for vectors whose entries span nine decades (absolute thresholds on partial norms, underflow of
+    squares, float32 intermediates ... break exactly this)."""
+    rng = ctx.rng
+    ok = True
+    sizes_u = (4, 8) if not ctx.thorough else (2, 4, 8, 16)
+    for arch in ("diagonal", "tree"):
+        for n in sizes_u + ((5,) if arch == "diagonal" else ()):
+            for tag, x, cmp in scale_vectors(rng, n, False):
+                cmp = cmp or (CMP_MIXED if arch == "diagonal" else CMP_MIXED_ACOS)
+                ok &= check_state(ctx, f"unary_encoder:{arch}:scale", f"unary_encoder(x, {arch!r}) is not scale invariant ({tag}): x={x.tolist()}",
+                                  f"run(E.unary_encoder(x, {arch!r}))", "unary_target(x0)", f"x = {arr_repr(x)}\nx0 = x.copy()\n", "C20_search_scales", cmp)
+                ctx.stat(f"scale:unary:{tag}")
+    for n, k in ((3, 1), (4, 2), (5, 2)) + (((6, 3),) if ctx.thorough else ()):
+        for tag, x, cmp in scale_vectors(rng, math.comb(n, k), True):
+            oc = rng.random() < 0.5
+            ok &= check_state(ctx, "hamming_weight_encoder:scale", f"hamming_weight_encoder(x, {n}, {k}, optimize_controls={oc}) is not scale invariant ({tag}): x={x.tolist()}",
+                              f"run(E.hamming_weight_encoder(x, {n}, {k}, optimize_controls={oc}))", f"hw_target(x0, {n}, {k})", f"x = {arr_repr(x)}\nx0 = x.copy()\n",
+                              "C20_search_scales", cmp or CMP_MIXED)
+            ctx.stat(f"scale:hw:{tag}")
+    for par in ("hyperspherical", "hopf"):
+        for n in (1, 2, 3) + ((4, 5) if ctx.thorough else (4,)):
+            for tag, x, cmp in scale_vectors(rng, 2**n, par == "hyperspherical"):
+                cmp = cmp or (CMP_MIXED if par == "hyperspherical" else CMP_MIXED_ACOS)
+                ok &= check_state(ctx, f"binary_encoder:{par}:scale", f"binary_encoder(x, {par!r}) is not scale invariant ({tag}): x={x.tolist()}",
+                                  f"run(E.binary_encoder(x, {par!r}))", "x0/np.linalg.norm(x0)", f"x = {arr_repr(x)}\nx0 = x.copy()\n", "C20_search_scales", cmp)
+                ctx.stat(f"scale:binary:{tag}")
+    ctx.ob("C20_search_scales", ok, "search", "" if ok else "an encoder is not scale invariant (x and c*x must prepare the same state x/|x|)")
 
 
 def has_zero_pair(x):
@@ -769,14 +869,14 @@ def deepen(ctx):
                 "def rel_defect(x):\n    x = np.asarray(x, dtype=float); n = len(x); R = heap_norms(x)\n    th = np.asarray(E._generate_rbs_angles(x, 'tree', n), dtype=float)\n"
                 "    c = E.unary_encoder(x, 'tree')\n    par = np.array([float(p[0]) for p in c.get_parameters()])\n"
                 "    assert th.shape == (n - 1,) and np.array_equal(par, th), 'circuit parameters are not the angles in queue order'\n"
-                "    return max(max(abs(R[e]*math.cos(th[e]) - R[2*e+1]), abs(R[e]*math.sin(th[e]) - R[2*e+2])) for e in range(n - 1)) / max(1.0, R[0])\n")
+                "    return max(max(abs(R[e]*math.cos(th[e]) - R[2*e+1]), abs(R[e]*math.sin(th[e]) - R[2*e+2])) for e in range(n - 1)) / R[0]\n")
     if gen is None:
         ctx.ob("C20_tree_angle_relations", False, "correspondence", "models/encodings.py has no _generate_rbs_angles any more")
         return
     env = dict(ev)
     exec(relsetup, env)
     for n in (2, 4, 8, 16, 32):
-        for kind, x in data_vectors(rng, n, False, 12 if ctx.thorough else 6):
+        for kind, x in list(data_vectors(rng, n, False, 12 if ctx.thorough else 6)) + [(t_, x_) for t_, x_, _ in scale_vectors(rng, n, False, mixed=False)]:
             ctx.case(("tree-angles", n, kind, tuple(float(v) for v in x)))
             ctx.stat(f"tree_angles:n{n}")
             try:
@@ -1119,7 +1219,7 @@ def hopf_defect(x):
     R = np.zeros(2 * d - 1); R[d - 1:] = x
     for e in range(d - 2, -1, -1):
         R[e] = math.hypot(R[2*e+1], R[2*e+2])
-    return max(max(abs(R[e]*math.cos(par[e]/2) - R[2*e+1]), abs(R[e]*math.sin(par[e]/2) - R[2*e+2])) for e in range(d - 1)) / max(1.0, R[0])
+    return max(max(abs(R[e]*math.cos(par[e]/2) - R[2*e+1]), abs(R[e]*math.sin(par[e]/2) - R[2*e+2])) for e in range(d - 1)) / R[0]
 '''
 
 
@@ -1156,7 +1256,7 @@ def chain_relations(ctx, extra=()):
     nmax = 9 if ctx.thorough else 8
     # sizes on which the gate list differs from the model are searched for a failing input as well
     for n in list(range(1, nmax + 1)) + [m for m in extra if m > nmax]:
-        for kind, x in data_vectors(rng, 2**n, True, 8 if n <= 5 else (4 if n <= 7 else 2)):
+        for kind, x in list(data_vectors(rng, 2**n, True, 8 if n <= 5 else (4 if n <= 7 else 2))) + ([(t_, x_) for t_, x_, _ in scale_vectors(rng, 2**n, True)] if n <= 5 else []):
             cplx = np.iscomplexobj(x)
             cls = ("complex" if cplx else "real") + (":sparse" if (x == 0).any() else "")
             res = one(f"binary_encoder:hyperspherical:chain:{cls}", f"the gates of binary_encoder(x, 'hyperspherical') with x={x.tolist()[:16]} do not form a loading chain that writes x/|x|",
@@ -1167,14 +1267,14 @@ def chain_relations(ctx, extra=()):
     for n in range(2, hw + 1):
         for k in range(1, n):
             d = math.comb(n, k)
-            for kind, x in data_vectors(rng, d, True, 6 if n <= 5 else 3):
+            for kind, x in list(data_vectors(rng, d, True, 6 if n <= 5 else 3)) + ([(t_, x_) for t_, x_, _ in scale_vectors(rng, d, True)] if n <= 4 else []):
                 cplx = np.iscomplexobj(x)
                 oc, pc = rng.random() < 0.5, rng.random() < 0.8
                 cls = ("complex" if cplx else "real") + (":sparse" if (x == 0).any() else "")
                 one(f"hamming_weight_encoder:chain:{cls}", f"the gates of hamming_weight_encoder(x, {n}, {k}, optimize_controls={oc}, phase_correction={pc}) with x={x.tolist()[:16]} do not form a loading chain that writes x/|x|",
                     f"hw_defect(x, {n}, {k}, {oc}, {pc})", f"x = {arr_repr(x)}\n", also=("C20_corr_hw_encoder_b",))
     for n in range(1, nmax + 1):
-        for kind, x in data_vectors(rng, 2**n, False, 6 if n <= 5 else 3):
+        for kind, x in list(data_vectors(rng, 2**n, False, 6 if n <= 5 else 3)) + ([(t_, x_) for t_, x_, _ in scale_vectors(rng, 2**n, False, mixed=False)] if n <= 5 else []):
             cls = "zero-pair" if has_zero_pair(x) else ("sparse" if (x == 0).any() else "dense")
             one(f"binary_encoder:hopf:tree-relations:{cls}", f"angles of binary_encoder(x, 'hopf') with x={x.tolist()[:16]} violate the tree relations / heap order",
                 "hopf_defect(x)", f"x = {arr_repr(x)}\n", also=("C20_corr_hopf",))
@@ -1202,6 +1302,7 @@ def run(ctx):
     search_hw(ctx)
     chain_hypotheses(ctx)
     search_binary(ctx)
+    search_scales(ctx)
     search_independence(ctx)
     search_layers(ctx)
     ctx.notes.append(
